@@ -111,7 +111,7 @@ func body(kind string, third bool, planAlpha []int, nplans int) func(x *harness.
 		}
 		bg, stopAll := context.WithCancel(context.Background())
 		// data choices
-		idB := []string{"x", "y"}[rt.Choose(2)]
+		idB := []string{"x", "y", "X"}[rt.Choose(3)] // "X": equal to A's id only under case folding
 		withCancel := rt.Choose(2) == 1
 		var plans []int
 		for i := 0; i < nplans; i++ {
@@ -382,7 +382,7 @@ func main() {
 	harness.Main(harness.Check{
 		Property: "C05",
 		Level:    "model_checking",
-		Rule:     "2-3 concurrent ProcessCommand callers with ids from {x,y} (same-id and different-id collisions, second round reusing an id), optional canceller of one context, a stream reader, and a peer answering each request from the plan {own id, omitted, duplicated, unknown id first, deferred until the next request} - all plan/id combinations as data choices x all schedules within the deviation bound; history checked against a pending-command-table model; distinct outcome = distinct observation log",
+		Rule:     "2-3 concurrent ProcessCommand callers with ids from {x,y,X} (same-id, different-id and differ-only-by-case collisions, second round reusing an id), optional canceller of one context, a stream reader, and a peer answering each request from the plan {own id, omitted, duplicated, unknown id first, deferred until the next request} - all plan/id combinations as data choices x all schedules within the deviation bound; history checked against a pending-command-table model; distinct outcome = distinct observation log",
 		Assume:   []string{"channel and transport buffers of size 1 (in-process) / 64KiB pipe (TCP)", "delay bounding: every departure from the default schedule (continue the running goroutine; at a block, the lowest-numbered enabled goroutine) costs one deviation; no I/O stall is injected", "pruning assumes all shared state is reached through hooked operations (the pending-command map is guarded by its RWMutex)"},
 		Scenarios: []harness.Scenario{
 			mk("inproc/2callers/plans5x3", "inproc", false, full, 3, 1, 1),
